@@ -41,6 +41,7 @@ def _record_classes(trees, inv):
                 if not (named and len(st.bases) == 1 and not st.decorator_list) and not (data and not st.bases and len(st.decorator_list) == 1):
                     continue
                 fields, defaults, ok = [], {}, True
+                methods = []
                 for x in st.body:
                     if isinstance(x, ast.Expr) and isinstance(x.value, ast.Constant):
                         continue
@@ -53,9 +54,14 @@ def _record_classes(trees, inv):
                                 ok = False
                             defaults[x.target.id] = x.value
                         continue
+                    if isinstance(x, ast.FunctionDef) and not x.name.startswith("__") and x.args.args and not x.args.vararg and not x.args.kwarg:
+                        kinds = [ast.unparse(d) for d in x.decorator_list]
+                        if kinds in ([], ["classmethod"], ["staticmethod"]):
+                            methods.append((x, kinds[0] if kinds else "method"))
+                            continue
                     ok = False
                 if ok and fields:
-                    out[st.name] = {"rel": rel, "node": st, "fields": fields, "defaults": defaults, "tuple": named}
+                    out[st.name] = {"rel": rel, "node": st, "fields": fields, "defaults": defaults, "tuple": named, "methods": methods}
             elif isinstance(st, ast.Assign) and len(st.targets) == 1 and isinstance(st.targets[0], ast.Name) and st.targets[0].id not in known and isinstance(st.value, ast.Call):
                 f = st.value.func
                 if ((isinstance(f, ast.Name) and f.id == "namedtuple") or (isinstance(f, ast.Attribute) and f.attr == "namedtuple")) and len(st.value.args) == 2 and not st.value.keywords:
@@ -82,7 +88,87 @@ def _ann_is(ann, K):
     return False
 
 
-def lower_records(trees, report):
+def _hoist_record_methods(trees, recs, changed, report, unknown=None):
+    """methods of a record class become module-level functions whose first parameter is the record:
+    `v.m(a)` -> `K__m(v, a)`, `K.c(a)` (classmethod / staticmethod) -> `K__c(a)` with `cls(..)` -> `K(..)`.
+    Only when the method names are unique in the package (no other attribute of that name)."""
+    for K, info in list(recs.items()):
+        methods = info.get("methods") or []
+        if not methods:
+            continue
+        names = {m.name for m, _ in methods}
+        if names & set(info["fields"]):
+            del recs[K]
+            continue
+        clash = False
+        for t in trees.values():
+            for n in ast.walk(t):
+                if isinstance(n, ast.ClassDef) and n.name != K:
+                    if any(isinstance(x, (ast.FunctionDef, ast.AsyncFunctionDef)) and x.name in names for x in n.body):
+                        clash = True
+                if isinstance(n, ast.Attribute) and n.attr in names and isinstance(n.ctx, (ast.Store, ast.Del)):
+                    clash = True
+        # every use of a method name is a call
+        for t in trees.values():
+            callf = {id(c.func) for c in ast.walk(t) if isinstance(c, ast.Call)}
+            for n in ast.walk(t):
+                if isinstance(n, ast.Attribute) and n.attr in names and id(n) not in callf:
+                    clash = True
+        if clash:
+            del recs[K]
+            continue
+        tree = trees[info["rel"]]
+        cnode = info["node"]
+        new_funcs = []
+        for m, kind in methods:
+            g = copy.deepcopy(m)
+            g.decorator_list = []
+            g.name = f"{K}__{m.name}"
+            first = g.args.args[0].arg
+            if kind == "method":
+                g.args.args[0].annotation = ast.Name(id=K, ctx=ast.Load())
+            else:
+                if kind == "classmethod":
+                    g.args.args = g.args.args[1:]
+
+                    class C(ast.NodeTransformer):
+                        def visit_Name(self, n):
+                            return ast.copy_location(ast.Name(id=K, ctx=n.ctx), n) if n.id == first and isinstance(n.ctx, ast.Load) else n
+
+                    g.body = [C().visit(s) for s in g.body]
+                rets = [n for n in _walk_own(g) if isinstance(n, ast.Return)]
+                if rets and all(isinstance(r.value, ast.Call) and isinstance(r.value.func, ast.Name) and r.value.func.id == K for r in rets):
+                    g.returns = ast.Name(id=K, ctx=ast.Load())
+            ast.copy_location(g, m)
+            ast.fix_missing_locations(g)
+            new_funcs.append((g, kind, m.name))
+        kinds = {n: k for _, k, n in new_funcs}
+        for rel, t in trees.items():
+            for n in ast.walk(t):
+                if isinstance(n, ast.Call) and isinstance(n.func, ast.Attribute) and n.func.attr in names:
+                    recv = n.func.value
+                    mname = n.func.attr
+                    if kinds[mname] == "method":
+                        n.args = [recv] + list(n.args)
+                    elif not (isinstance(recv, ast.Name) and recv.id in (K, "cls", "self")):
+                        continue
+                    n.func = ast.copy_location(ast.Name(id=f"{K}__{mname}", ctx=ast.Load()), n.func)
+                    changed.add(rel)
+            for st in ast.walk(t):
+                if isinstance(st, ast.ImportFrom) and rel != info["rel"] and any(al.name == K for al in st.names):
+                    st.names = list(st.names) + [ast.alias(name=g.name, asname=None) for g, _, _ in new_funcs]
+        cnode.body = [x for x in cnode.body if not any(x is m for m, _ in methods)] or [ast.Pass()]
+        i = next(k for k, x in enumerate(tree.body) if x is cnode)
+        tree.body[i + 1:i + 1] = [g for g, _, _ in new_funcs]
+        if unknown is not None:
+            for g, _, _ in new_funcs:
+                unknown.add((info["rel"], g.name))
+        ast.fix_missing_locations(tree)
+        changed.add(info["rel"])
+        report.append(("hoisted-record-methods", f"{info['rel']}:{K}:{sorted(names)}"))
+
+
+def lower_records(trees, report, unknown=None):
     inv = load_inventory()
     if inv is None:
         return set()
@@ -90,6 +176,9 @@ def lower_records(trees, report):
     if not recs:
         return set()
     changed = set()
+    _hoist_record_methods(trees, recs, changed, report, unknown)
+    if not recs:
+        return changed
     all_nodes = [(rel, n) for rel, t in trees.items() for n in ast.walk(t)]
     attr_uses = {}
     for rel, n in all_nodes:
@@ -1150,7 +1239,7 @@ def undo(trees, unknown, report):
     from .canon import canonicalise
 
     changed = set()
-    a = lower_records(trees, report)
+    a = lower_records(trees, report, unknown if isinstance(unknown, set) else None)
     for rel in a:
         canonicalise(trees[rel])
     changed |= a
